@@ -55,6 +55,8 @@ type inliner struct {
 	origExpr  map[ast.Expr]ast.Expr
 	skipCall  map[*ast.CallExpr]bool
 	noTemp    map[*ast.CallExpr]bool
+	tailNow   bool // the statement about to be processed is in tail position of a function body
+	curTail   bool // the statement being hoisted is in tail position
 	allowTemp bool
 	tempType  map[string]types.Type
 	seq       int
@@ -142,7 +144,7 @@ func buildOverlay(p *Prog, inv map[string]bool) (map[string][]byte, *inlineStats
 				if fn, ok := pk.TypesInfo.Defs[fd.Name].(*types.Func); ok {
 					stack = append(stack, fn)
 				}
-				fd.Body.List = in.stmts(fd.Body.List, stack, 0)
+				fd.Body.List = in.topStmts(fd.Body.List, stack, 0)
 			}
 			if in.changed {
 				changedFile[f] = true
@@ -218,12 +220,58 @@ func inlinableDecl(fd *ast.FuncDecl, fn *types.Func) bool {
 	if sig.TypeParams() != nil || sig.RecvTypeParams() != nil {
 		return false
 	}
+	return inlinableBody(fd.Body)
+}
+
+// hasDefer: the body registers deferred calls (outside nested function literals).
+func hasDefer(body *ast.BlockStmt) bool {
+	found := false
+	ast.Inspect(body, func(x ast.Node) bool {
+		switch x.(type) {
+		case *ast.FuncLit:
+			return false
+		case *ast.DeferStmt:
+			found = true
+		}
+		return !found
+	})
+	return found
+}
+
+// inlinableBody: structural conditions on a callee body. Deferred calls are tolerated only in the simple form
+// `defer f(args)` with a named function or method f and call-free, address-free arguments: such a callee is inlined only
+// at a call in tail position of the caller (see expand), where "at the end of the callee" and "at the end of the caller"
+// coincide.
+func inlinableBody(body *ast.BlockStmt) bool {
 	ok := true
 	n := 0
-	ast.Inspect(fd.Body, func(x ast.Node) bool {
+	ast.Inspect(body, func(x ast.Node) bool {
 		switch y := x.(type) {
+		case *ast.FuncLit:
+			return false
 		case *ast.DeferStmt:
-			ok = false
+			switch f := ast.Unparen(y.Call.Fun).(type) {
+			case *ast.Ident:
+			case *ast.SelectorExpr:
+				if _, isId := f.X.(*ast.Ident); !isId {
+					ok = false
+				}
+			default:
+				ok = false
+			}
+			for _, a := range y.Call.Args {
+				ast.Inspect(a, func(z ast.Node) bool {
+					switch w := z.(type) {
+					case *ast.CallExpr, *ast.FuncLit:
+						ok = false
+					case *ast.UnaryExpr:
+						if w.Op == token.AND || w.Op == token.ARROW {
+							ok = false
+						}
+					}
+					return ok
+				})
+			}
 		case *ast.BranchStmt:
 			if y.Tok == token.GOTO {
 				ok = false
@@ -237,7 +285,6 @@ func inlinableDecl(fd *ast.FuncDecl, fn *types.Func) bool {
 		}
 		return ok
 	})
-	// unnamed or blank parameters cannot be bound by name; they are bound to fresh names anyway, so fine.
 	return ok && n <= 120
 }
 
@@ -428,6 +475,12 @@ func (in *inliner) firstCall(pe *ast.Expr, stack []*types.Func) (slot *ast.Expr,
 		if in.skipCall[x] {
 			return in.tempSlot(pe, x)
 		}
+		if _, isLit := ast.Unparen(x.Fun).(*ast.FuncLit); isLit {
+			if in.isCandidateCall(x, stack) {
+				return pe, false
+			}
+			return in.tempSlot(pe, x)
+		}
 		fn, _ := in.callee(x)
 		if fn == nil || !in.cand[fn] || in.decls[fn] == nil {
 			return in.tempSlot(pe, x)
@@ -457,7 +510,13 @@ func (in *inliner) tempSlot(pe *ast.Expr, c *ast.CallExpr) (*ast.Expr, bool) {
 
 // isCandidateCall: c resolves to an inlinable helper that is not being expanded already.
 func (in *inliner) isCandidateCall(c *ast.CallExpr, stack []*types.Func) bool {
-	if in.skipCall[c] || !in.isRealCall(c) {
+	if in.skipCall[c] {
+		return false
+	}
+	if lit, ok := ast.Unparen(c.Fun).(*ast.FuncLit); ok {
+		return inlinableBody(lit.Body)
+	}
+	if !in.isRealCall(c) {
 		return false
 	}
 	fn, _ := in.callee(c)
@@ -542,7 +601,40 @@ func (in *inliner) firstInList(es []ast.Expr, stack []*types.Func) *ast.Expr {
 func (in *inliner) stmts(list []ast.Stmt, stack []*types.Func, depth int) []ast.Stmt {
 	var out []ast.Stmt
 	for _, s := range list {
+		in.tailNow = false
 		out = append(out, in.stmt(s, stack, depth)...)
+	}
+	return out
+}
+
+// topStmts processes the statement list of a function body (declaration or literal): a statement is in tail position
+// when only returns of call-free values follow it.
+func (in *inliner) topStmts(list []ast.Stmt, stack []*types.Func, depth int) []ast.Stmt {
+	var out []ast.Stmt
+	for i, s := range list {
+		tail := true
+		for _, rest := range list[i+1:] {
+			r, ok := rest.(*ast.ReturnStmt)
+			if !ok || !in.exprsCallFree(r.Results) {
+				tail = false
+			}
+			for _, e := range func() []ast.Expr {
+				if ok {
+					return r.Results
+				}
+				return nil
+			}() {
+				ast.Inspect(e, func(n ast.Node) bool {
+					if _, isLit := n.(*ast.FuncLit); isLit {
+						tail = false
+					}
+					return tail
+				})
+			}
+		}
+		in.tailNow = tail
+		out = append(out, in.stmt(s, stack, depth)...)
+		in.tailNow = false
 	}
 	return out
 }
@@ -554,7 +646,7 @@ func (in *inliner) funcLits(n ast.Node, stack []*types.Func, depth int) {
 	}
 	ast.Inspect(n, func(x ast.Node) bool {
 		if fl, ok := x.(*ast.FuncLit); ok {
-			fl.Body.List = in.stmts(fl.Body.List, stack, depth)
+			fl.Body.List = in.topStmts(fl.Body.List, stack, depth)
 			return false
 		}
 		return true
@@ -562,6 +654,8 @@ func (in *inliner) funcLits(n ast.Node, stack []*types.Func, depth int) {
 }
 
 func (in *inliner) stmt(s ast.Stmt, stack []*types.Func, depth int) []ast.Stmt {
+	tail := in.tailNow
+	in.tailNow = false
 	switch x := s.(type) {
 	case *ast.BlockStmt:
 		x.List = in.stmts(x.List, stack, depth)
@@ -650,6 +744,8 @@ func (in *inliner) stmt(s ast.Stmt, stack []*types.Func, depth int) []ast.Stmt {
 		return in.hoist(x, func() *ast.Expr { s, _ := in.firstCall(&x.X, stack); return s }, stack, depth)
 	case *ast.ExprStmt:
 		in.funcLits(x.X, stack, depth)
+		in.curTail = tail
+		defer func() { in.curTail = false }()
 		return in.hoist(x, func() *ast.Expr { s, _ := in.firstCall(&x.X, stack); return s }, stack, depth)
 	case *ast.AssignStmt:
 		for _, e := range x.Rhs {
@@ -658,6 +754,8 @@ func (in *inliner) stmt(s ast.Stmt, stack []*types.Func, depth int) []ast.Stmt {
 		if !in.exprsCallFree(x.Lhs) {
 			return []ast.Stmt{x}
 		}
+		in.curTail = tail
+		defer func() { in.curTail = false }()
 		return in.hoist(x, func() *ast.Expr { return in.firstInList(x.Rhs, stack) }, stack, depth)
 	case *ast.ReturnStmt:
 		for _, e := range x.Results {
@@ -741,7 +839,14 @@ func (in *inliner) hoist(s ast.Stmt, find func() *ast.Expr, stack []*types.Func,
 		if depth == 0 {
 			in.sitePos = in.rootPos(call)
 		}
-		pre, results, ok := in.expand(call, fn, recv, stack, depth)
+		var pre []ast.Stmt
+		var results []string
+		var ok bool
+		if lit, isLit := ast.Unparen(call.Fun).(*ast.FuncLit); isLit {
+			pre, results, ok = in.expandLit(call, lit, stack, depth)
+		} else {
+			pre, results, ok = in.expand(call, fn, recv, stack, depth)
+		}
 		if !ok {
 			in.skipCall[call] = true
 			continue
@@ -807,7 +912,9 @@ func (in *inliner) hoist(s ast.Stmt, find func() *ast.Expr, stack []*types.Func,
 func (in *inliner) noteInlined(fn *types.Func) {
 	in.changed = true
 	in.stats.Sites++
-	in.stats.Functions[funcKey(fn)]++
+	if fn != nil {
+		in.stats.Functions[funcKey(fn)]++
+	}
 }
 
 func (in *inliner) rootPos(c *ast.CallExpr) token.Pos {
@@ -868,6 +975,9 @@ func (in *inliner) expand(call *ast.CallExpr, fn *types.Func, recvExpr ast.Expr,
 	sig := fn.Type().(*types.Signature)
 	if call.Ellipsis.IsValid() && !sig.Variadic() {
 		return in.skip("ellipsis")
+	}
+	if hasDefer(decl.Body) && !(in.curTail && depth == 0) {
+		return in.skip("deferring callee not in tail position")
 	}
 	suffix := in.fresh("")
 	var pre []ast.Stmt   // result temporaries, in the caller's scope
@@ -971,7 +1081,54 @@ func (in *inliner) expand(call *ast.CallExpr, fn *types.Func, recvExpr ast.Expr,
 	if len(args) == 1 && np > 1 {
 		return in.skip("tuple argument")
 	}
+	// a parameter that receives a function literal or a method value x.M (x a plain identifier) and is only ever called
+	// in the callee is replaced by that expression at its call sites instead of being bound to a variable
+	subst := map[types.Object]ast.Expr{}
+	for k := 0; k < np && k < len(args); k++ {
+		if pobjs[k] == nil || (sig.Variadic() && k == np-1) {
+			continue
+		}
+		if _, isFn := sig.Params().At(k).Type().Underlying().(*types.Signature); !isFn {
+			continue
+		}
+		okArg := false
+		switch a := ast.Unparen(args[k]).(type) {
+		case *ast.FuncLit:
+			okArg = true
+		case *ast.SelectorExpr:
+			if _, isId := a.X.(*ast.Ident); isId {
+				if _, isFunc := in.objOf(a.Sel).(*types.Func); isFunc {
+					okArg = true
+				}
+			}
+		}
+		if !okArg {
+			continue
+		}
+		uses, calls := 0, 0
+		ast.Inspect(decl.Body, func(n ast.Node) bool {
+			switch x := n.(type) {
+			case *ast.Ident:
+				if in.info.Uses[x] == pobjs[k] {
+					uses++
+				}
+			case *ast.CallExpr:
+				if id, ok := ast.Unparen(x.Fun).(*ast.Ident); ok && in.info.Uses[id] == pobjs[k] {
+					calls++
+				}
+			}
+			return true
+		})
+		if uses > 0 && uses == calls {
+			subst[pobjs[k]] = args[k]
+		}
+	}
 	for k := 0; k < np; k++ {
+		if pobjs[k] != nil {
+			if _, sub := subst[pobjs[k]]; sub {
+				continue
+			}
+		}
 		pt := sig.Params().At(k).Type()
 		name := in.fresh("arg")
 		if pobjs[k] != nil && pobjs[k].Name() != "_" {
@@ -1105,82 +1262,38 @@ func (in *inliner) expand(call *ast.CallExpr, fn *types.Func, recvExpr ast.Expr,
 	if !okClone {
 		return in.skip(why)
 	}
+	if len(subst) > 0 {
+		first := map[types.Object]bool{}
+		ast.Inspect(body, func(n ast.Node) bool {
+			cx, ok := n.(*ast.CallExpr)
+			if !ok {
+				return true
+			}
+			id, ok := ast.Unparen(cx.Fun).(*ast.Ident)
+			if !ok {
+				return true
+			}
+			o := in.objOf(id)
+			e, ok := subst[o]
+			if !ok {
+				return true
+			}
+			if first[o] {
+				e = in.clone(e, func(old, neu *ast.Ident) { in.orig[neu] = old }).(ast.Expr)
+			}
+			first[o] = true
+			if _, isLit := ast.Unparen(e).(*ast.FuncLit); isLit {
+				cx.Fun = &ast.ParenExpr{X: e}
+			} else {
+				cx.Fun = e
+			}
+			return true
+		})
+	}
 	// rewrite returns
 	label := "ret" + suffix
-	usedLabel := false
-	var rewriteList func(list []ast.Stmt) []ast.Stmt
-	var rewriteStmt func(s ast.Stmt) []ast.Stmt
-	mkReturn := func(r *ast.ReturnStmt) []ast.Stmt {
-		var out []ast.Stmt
-		n := len(results)
-		switch {
-		case n == 0:
-		case len(r.Results) == 0:
-			var rhs []ast.Expr
-			for _, nm := range named {
-				rhs = append(rhs, ast.NewIdent(nm))
-			}
-			out = append(out, &ast.AssignStmt{Lhs: identExprs(results), Tok: token.ASSIGN, Rhs: rhs})
-		default:
-			out = append(out, &ast.AssignStmt{Lhs: identExprs(results), Tok: token.ASSIGN, Rhs: r.Results})
-		}
-		usedLabel = true
-		out = append(out, &ast.BranchStmt{Tok: token.BREAK, Label: ast.NewIdent(label)})
-		return out
-	}
-	rewriteStmt = func(s ast.Stmt) []ast.Stmt {
-		switch x := s.(type) {
-		case *ast.ReturnStmt:
-			return mkReturn(x)
-		case *ast.BlockStmt:
-			x.List = rewriteList(x.List)
-		case *ast.IfStmt:
-			x.Body.List = rewriteList(x.Body.List)
-			if x.Else != nil {
-				r := rewriteStmt(x.Else)
-				if len(r) == 1 {
-					x.Else = r[0]
-				} else {
-					x.Else = &ast.BlockStmt{List: r}
-				}
-			}
-		case *ast.ForStmt:
-			x.Body.List = rewriteList(x.Body.List)
-		case *ast.RangeStmt:
-			x.Body.List = rewriteList(x.Body.List)
-		case *ast.SwitchStmt:
-			for _, c := range x.Body.List {
-				cc := c.(*ast.CaseClause)
-				cc.Body = rewriteList(cc.Body)
-			}
-		case *ast.TypeSwitchStmt:
-			for _, c := range x.Body.List {
-				cc := c.(*ast.CaseClause)
-				cc.Body = rewriteList(cc.Body)
-			}
-		case *ast.SelectStmt:
-			for _, c := range x.Body.List {
-				cc := c.(*ast.CommClause)
-				cc.Body = rewriteList(cc.Body)
-			}
-		case *ast.LabeledStmt:
-			r := rewriteStmt(x.Stmt)
-			if len(r) == 1 {
-				x.Stmt = r[0]
-			} else {
-				x.Stmt = &ast.BlockStmt{List: r}
-			}
-		}
-		return []ast.Stmt{s}
-	}
-	rewriteList = func(list []ast.Stmt) []ast.Stmt {
-		var out []ast.Stmt
-		for _, s := range list {
-			out = append(out, rewriteStmt(s)...)
-		}
-		return out
-	}
-	body.List = rewriteList(body.List)
+	var usedLabel bool
+	body.List, usedLabel = rewriteReturns(body.List, results, named, label)
 	// a function with results always ends in a terminating statement, so falling out of the switch means "returned"
 	// nested inlining inside the cloned body
 	body.List = in.stmts(body.List, append(append([]*types.Func{}, stack...), fn), depth+1)
@@ -1427,4 +1540,187 @@ func (in *inliner) render(f *ast.File, src []byte) ([]byte, error) {
 		return nil, err
 	}
 	return buf.Bytes(), nil
+}
+
+// rewriteReturns replaces the return statements of an inlined body (outside nested function literals) by assignments to
+// the result temporaries followed by a break out of the enclosing labelled switch.
+func rewriteReturns(list []ast.Stmt, results, named []string, label string) ([]ast.Stmt, bool) {
+	usedLabel := false
+	var rewriteList func(list []ast.Stmt) []ast.Stmt
+	var rewriteStmt func(s ast.Stmt) []ast.Stmt
+	mkReturn := func(r *ast.ReturnStmt) []ast.Stmt {
+		var out []ast.Stmt
+		n := len(results)
+		switch {
+		case n == 0:
+		case len(r.Results) == 0:
+			var rhs []ast.Expr
+			for _, nm := range named {
+				rhs = append(rhs, ast.NewIdent(nm))
+			}
+			out = append(out, &ast.AssignStmt{Lhs: identExprs(results), Tok: token.ASSIGN, Rhs: rhs})
+		default:
+			out = append(out, &ast.AssignStmt{Lhs: identExprs(results), Tok: token.ASSIGN, Rhs: r.Results})
+		}
+		usedLabel = true
+		out = append(out, &ast.BranchStmt{Tok: token.BREAK, Label: ast.NewIdent(label)})
+		return out
+	}
+	rewriteStmt = func(s ast.Stmt) []ast.Stmt {
+		switch x := s.(type) {
+		case *ast.ReturnStmt:
+			return mkReturn(x)
+		case *ast.BlockStmt:
+			x.List = rewriteList(x.List)
+		case *ast.IfStmt:
+			x.Body.List = rewriteList(x.Body.List)
+			if x.Else != nil {
+				r := rewriteStmt(x.Else)
+				if len(r) == 1 {
+					x.Else = r[0]
+				} else {
+					x.Else = &ast.BlockStmt{List: r}
+				}
+			}
+		case *ast.ForStmt:
+			x.Body.List = rewriteList(x.Body.List)
+		case *ast.RangeStmt:
+			x.Body.List = rewriteList(x.Body.List)
+		case *ast.SwitchStmt:
+			for _, c := range x.Body.List {
+				cc := c.(*ast.CaseClause)
+				cc.Body = rewriteList(cc.Body)
+			}
+		case *ast.TypeSwitchStmt:
+			for _, c := range x.Body.List {
+				cc := c.(*ast.CaseClause)
+				cc.Body = rewriteList(cc.Body)
+			}
+		case *ast.SelectStmt:
+			for _, c := range x.Body.List {
+				cc := c.(*ast.CommClause)
+				cc.Body = rewriteList(cc.Body)
+			}
+		case *ast.LabeledStmt:
+			r := rewriteStmt(x.Stmt)
+			if len(r) == 1 {
+				x.Stmt = r[0]
+			} else {
+				x.Stmt = &ast.BlockStmt{List: r}
+			}
+		}
+		return []ast.Stmt{s}
+	}
+	rewriteList = func(list []ast.Stmt) []ast.Stmt {
+		var out []ast.Stmt
+		for _, s := range list {
+			out = append(out, rewriteStmt(s)...)
+		}
+		return out
+	}
+	return rewriteList(list), usedLabel
+}
+
+// expandLit inlines an immediately invoked function literal `func(params) results { body }(args)`.
+func (in *inliner) expandLit(call *ast.CallExpr, lit *ast.FuncLit, stack []*types.Func, depth int) ([]ast.Stmt, []string, bool) {
+	if depth > 5 {
+		return in.skip("depth")
+	}
+	sig, _ := in.typeOf(lit).(*types.Signature)
+	if sig == nil {
+		return in.skip("literal signature unknown")
+	}
+	if sig.Variadic() || call.Ellipsis.IsValid() {
+		return in.skip("variadic literal")
+	}
+	if !inlinableBody(lit.Body) {
+		return in.skip("literal body not inlinable")
+	}
+	if hasDefer(lit.Body) && !(in.curTail && depth == 0) {
+		return in.skip("deferring literal not in tail position")
+	}
+	if len(call.Args) != sig.Params().Len() {
+		return in.skip("literal argument count")
+	}
+	suffix := in.fresh("")
+	var pre, outer, inner []ast.Stmt
+	var results []string
+	declVar := func(name string, t types.Type, val ast.Expr) (ast.Stmt, bool) {
+		te, ok := in.typeExpr(t)
+		if !ok {
+			return nil, false
+		}
+		vs := &ast.ValueSpec{Names: []*ast.Ident{ast.NewIdent(name)}, Type: te}
+		if val != nil {
+			vs.Values = []ast.Expr{val}
+		}
+		return &ast.DeclStmt{Decl: &ast.GenDecl{Tok: token.VAR, Specs: []ast.Spec{vs}}}, true
+	}
+	use := func(name string) ast.Stmt {
+		return &ast.AssignStmt{Lhs: []ast.Expr{ast.NewIdent("_")}, Tok: token.ASSIGN, Rhs: []ast.Expr{ast.NewIdent(name)}}
+	}
+	for k := 0; k < sig.Results().Len(); k++ {
+		name := in.fresh("res")
+		d, ok := declVar(name, sig.Results().At(k).Type(), nil)
+		if !ok {
+			return in.skip("result type not expressible")
+		}
+		pre = append(pre, d, use(name))
+		results = append(results, name)
+		in.tempType[name] = sig.Results().At(k).Type()
+	}
+	// arguments are evaluated into temporaries first (their expressions must not see the literal's parameter names)
+	k := 0
+	for _, fld := range lit.Type.Params.List {
+		names := fld.Names
+		if len(names) == 0 {
+			names = []*ast.Ident{nil}
+		}
+		for _, nm := range names {
+			pt := sig.Params().At(k).Type()
+			tmp := in.fresh("arg")
+			d, ok := declVar(tmp, pt, call.Args[k])
+			if !ok {
+				return in.skip("parameter type not expressible")
+			}
+			outer = append(outer, d, use(tmp))
+			in.tempType[tmp] = pt
+			if nm != nil && nm.Name != "_" {
+				d2, _ := declVar(nm.Name, pt, ast.NewIdent(tmp))
+				inner = append(inner, d2, use(nm.Name))
+			}
+			k++
+		}
+	}
+	var named []string
+	if lit.Type.Results != nil {
+		k := 0
+		for _, fld := range lit.Type.Results.List {
+			for _, nm := range fld.Names {
+				if nm.Name == "_" {
+					return in.skip("blank named result in literal")
+				}
+				d, ok := declVar(nm.Name, sig.Results().At(k).Type(), nil)
+				if !ok {
+					return in.skip("result type not expressible")
+				}
+				inner = append(inner, d, use(nm.Name))
+				named = append(named, nm.Name)
+				k++
+			}
+		}
+	}
+	label := "ret" + suffix
+	body := lit.Body
+	var usedLabel bool
+	body.List, usedLabel = rewriteReturns(body.List, results, named, label)
+	body.List = in.stmts(body.List, stack, depth+1)
+	var core ast.Stmt = &ast.BlockStmt{List: body.List}
+	if usedLabel {
+		core = &ast.LabeledStmt{Label: ast.NewIdent(label), Stmt: &ast.SwitchStmt{Body: &ast.BlockStmt{List: []ast.Stmt{&ast.CaseClause{Body: body.List}}}}}
+	}
+	innerBlk := &ast.BlockStmt{List: append(inner, core)}
+	blk := &ast.BlockStmt{List: append(outer, innerBlk)}
+	in.stats.Functions["(function literal)"]++
+	return append(pre, blk), results, true
 }
